@@ -258,4 +258,64 @@ theorem lookup_mem_groups (m : IdMap) (s : List Char) (a : Nat) (h : a ∈ m.loo
     have hg' : g.1 = s := by simpa using hg
     exact List.mem_map.mpr ⟨g, List.mem_of_find?_eq_some hfd, hg'⟩
 
+/-! ## ToQueryConditions: tuple equality of the IN list = one SQL equality per (column, field) pair -/
+
+theorem sqlEq_iff (a b : KeyVal) : sqlEq a b = true ↔ a ≠ .nil ∧ a = b := by
+  unfold sqlEq
+  constructor
+  · intro h
+    simp only [Bool.and_eq_true, bne_iff_ne, ne_eq, beq_iff_eq] at h
+    exact ⟨h.1.1, h.2⟩
+  · rintro ⟨h1, h2⟩
+    subst h2
+    simp [h1]
+
+/-- the row's IN tuple is NULL-free and equals the record's value tuple iff every pair is SQL-equal -/
+theorem tuple_eq_iff_pairs (row : QRow) (cols : List Char → KeyComp) (ps : List (List Char × List Char)) :
+    (KeyVal.nil ∉ ps.map (fun pr => row pr.1) ∧ ps.map (fun pr => row pr.1) = ps.map (fun pr => (cols pr.2).val)) ↔
+    ∀ pr ∈ ps, sqlEq (row pr.1) (cols pr.2).val = true := by
+  induction ps with
+  | nil => simp
+  | cons pr rest ih =>
+    simp only [sqlEq_iff] at ih
+    simp only [List.map_cons, List.mem_cons, not_or, List.cons.injEq, forall_eq_or_imp, sqlEq_iff]
+    constructor
+    · rintro ⟨⟨h1, h2⟩, h3, h4⟩
+      exact ⟨⟨fun h => h1 h.symm, h3⟩, ih.mp ⟨h2, h4⟩⟩
+    · rintro ⟨⟨h1, h3⟩, h⟩
+      obtain ⟨h2, h4⟩ := ih.mpr h
+      exact ⟨⟨fun h => h1 h.symm, h2⟩, h3, h4⟩
+
+/-- every reference holds iff every (column, field) pair is SQL-equal and every extra condition holds -/
+theorem refs_hold_iff (ft : List Char) (jt : Option (List Char)) (p : PRow) (env : QEnv) (refs : List JoinRef) :
+    (∀ r ∈ refs, refHolds ft jt p env r = true) ↔
+    ((∀ pr ∈ refs.filterMap (qcPair jt.isSome), sqlEq (env (jt.getD ft) pr.1) (p.cols pr.2).val = true) ∧
+     (∀ a ∈ refs.filterMap (qcAtom ft jt), a.holds env = true)) := by
+  induction refs with
+  | nil => simp
+  | cons r rest ih =>
+    simp only [List.mem_cons, forall_eq_or_imp, ih]
+    by_cases ho : r.ownPK = true
+    · simp [qcPair, qcAtom, refHolds, ho, and_assoc]
+    · have ho' : r.ownPK = false := by simpa using ho
+      by_cases hv : r.primaryValue = []
+      · cases jt with
+        | none =>
+          simp [qcPair, qcAtom, refHolds, ho', hv, and_assoc]
+        | some j =>
+          simp only [List.filterMap_cons, qcPair, qcAtom, refHolds, ho', hv, Option.isSome_some, Bool.false_eq_true,
+            if_false, ne_eq, not_true_eq_false, if_true, List.mem_cons, forall_eq_or_imp, QAtom.holds]
+          constructor
+          · rintro ⟨h1, h2, h3⟩; exact ⟨h2, h1, h3⟩
+          · rintro ⟨h2, h1, h3⟩; exact ⟨h1, h2, h3⟩
+      · simp only [List.filterMap_cons, qcPair, qcAtom, refHolds, ho', hv, Bool.false_eq_true, if_false, ne_eq,
+          not_false_eq_true, if_true, List.mem_cons, forall_eq_or_imp, QAtom.holds]
+        constructor
+        · rintro ⟨h1, h2, h3⟩; exact ⟨h2, h1, h3⟩
+        · rintro ⟨h2, h1, h3⟩; exact ⟨h1, h2, h3⟩
+
+theorem idRow_vals (p : PRow) (ps : List (List Char × List Char)) :
+    (p.idRow (ps.map (·.2))).vals = ps.map (fun pr => (p.cols pr.2).val) := by
+  simp [PRow.idRow, IdRow.vals, List.map_map, Function.comp_def]
+
 end Gorm
